@@ -1,9 +1,9 @@
 package main
 
 import (
-	"go/types"
 	"fmt"
 	"go/token"
+	"go/types"
 	"strings"
 
 	"golang.org/x/tools/go/ssa"
@@ -86,7 +86,9 @@ func runC15(c *Ctx) {
 		var npCall, pCall ssa.CallInstruction
 		host := pf // the function that looks the landmarks up: prefetch itself, or a helper it owns
 		for _, hf := range c.withHelpers(pf) {
-			for _, g := range callsIn(hf, func(id string, ci ssa.CallInstruction) bool { return ci.Common().IsInvoke() && ci.Common().Method.Name() == "GetChild" }) {
+			for _, g := range callsIn(hf, func(id string, ci ssa.CallInstruction) bool {
+				return ci.Common().IsInvoke() && ci.Common().Method.Name() == "GetChild"
+			}) {
 				if s, ok := constString(g.Common().Args[1]); ok {
 					if s == npfl {
 						npCall, host = g, hf
@@ -333,7 +335,9 @@ func runC15(c *Ctx) {
 			for _, ci := range callsIn(cb, func(id string, _ ssa.CallInstruction) bool { return strings.HasSuffix(id, "FileMode).IsRegular") }) {
 				regular = append(regular, boolEdges(cb, ci.Value(), true)...)
 			}
-			offs := callsIn(cb, func(id string, ci ssa.CallInstruction) bool { return ci.Common().IsInvoke() && ci.Common().Method.Name() == "GetOffset" })
+			offs := callsIn(cb, func(id string, ci ssa.CallInstruction) bool {
+				return ci.Common().IsInvoke() && ci.Common().Method.Name() == "GetOffset"
+			})
 			good := len(regular) > 0 && len(offs) > 0 && len(rootEq) > 0 && len(nameEq) > 0
 			detail := ""
 			if good {
